@@ -540,6 +540,9 @@ def run(prop, tier):
         # the by-name sink registry: real SinkManager vs SinkReg.step + idempotence oracles (tools/sinkreg_stream.py)
         import sinkreg_stream
         sinkreg = sinkreg_stream.run(ck, tier, ps)
+        # the by-name logger registry: real LoggerManager vs LogReg.step + linear-search reference (tools/logreg_stream.py)
+        import logreg_stream
+        ck.cov["logger_registry_stream"] = logreg_stream.run(ck, tier, ps)
     if prop in ("C20", "C08"):
         # registration of a thread context (C20) / the failure counter (C08): the real ThreadContextManager, ThreadContext and
         # BackendWorker members under the N-thread atomic shim against `driver reg trace` (tools/reg_stream.py)
@@ -665,6 +668,9 @@ def replay(prop, path):
     if "h3_tsc" in open(path).readline():
         import tsc_stream
         return tsc_stream.replay(prop, path)
+    if "logreg" in open(path).readline():
+        import logreg_stream
+        return logreg_stream.replay(prop, path)
     if open(path).readline().startswith("# h1_reg"):
         import reg_stream
         return reg_stream.replay(prop, path)
